@@ -5,7 +5,7 @@ import copy
 from sa.cfg import cfg_of
 from sa.contain import containment, local_container
 from sa.program import AnalysisError, const_str, dotted, norm, own_nodes
-from sa.util import (ancestors, compare_parts, enclosing_try_bodies, guards_at, self_calls_in, stmt_text, names_in)
+from sa.util import (ancestors, assignments_to, compare_parts, enclosing_try_bodies, guards_at, self_calls_in, stmt_text, names_in)
 from . import shared
 from .roles import CONFIG_ATTR, VIEWS, roles
 
@@ -144,6 +144,15 @@ def run(ctx):
                 ok = True
         c.ob("R6", ok, ev, "user-impl-wins", "built-in stateIn only when the user registered no guard of that name" if ok else
              "the built-in stateIn branch is not guarded by 'type not in logic.guards': a user guard named stateIn is ignored", call)
+    # ---- R8 parameterised guards receive their resolved params --------------------------
+    gcalls = [x for x in own_nodes(ev.node) if isinstance(x, ast.Call) and norm(x.func).endswith("_call_with_optional_params")]
+    c.floor("R8", "guard implementation call", len(gcalls), 1)
+    for x in gcalls:
+        last = x.args[-1] if x.args else None
+        ok = last is not None and any("_resolve_params" in norm(getattr(a, "value", a)) and "params" in norm(getattr(a, "value", a))
+                                      for a in assignments_to(ev, norm(last))) if isinstance(last, ast.Name) else (last is not None and "_resolve_params" in norm(last))
+        c.ob("R8", bool(ok), ev, "guard-gets-resolved-params", "the guard implementation is called with guard.params resolved through _resolve_params" if ok else
+             "the guard implementation is not handed the (possibly computed) params of the guard", x)
     # ---- R7 choose / enqueueActions.check use the same evaluator ----------------
     cb = p.method("BaseInterpreter", "_collect_builtin_followups")
     n7 = 0
